@@ -703,6 +703,13 @@ func (ab *rulesPair) genUniqGroupNames() {
 	for _, g := range ab.b.vsys.AddressGroups {
 		used[g.Name] = true
 	}
+	// Address and address-group share a name space on device.
+	for _, o := range ab.a.vsys.Addresses {
+		used[o.Name] = true
+	}
+	for _, o := range ab.b.vsys.Addresses {
+		used[o.Name] = true
+	}
 	for _, g := range ab.b.vsys.AddressGroups {
 		name := g.Name
 		if aGroups[name] == nil {
